@@ -468,6 +468,10 @@ int main(int argc, char ** argv) {
             for (t = TR; *t; ) { if (!strncmp(t, "E-350;", 6)) { t += 6; continue; } got[o++] = *t++; }      /* the overflow marker is the queue's business (C10) */
             got[o] = 0;
             if (fill >= 2) strip_errors(got), strip_errors(strcpy(expbuf, fq[k].exp)); else strcpy(expbuf, fq[k].exp);     /* on a full queue the error is replaced by the overflow marker: which notifications accompany that is C10's business */
+            if (fill == 1 && k != 1) {      /* one place was free: the unit's own error must be IN the queue, not replaced by the overflow marker */
+                char info[300]; int c1 = tc_pop(&TF, info, sizeof info), c2 = tc_pop(&TF, info, sizeof info), want = k == 0 ? -108 : -113;
+                if (c1 != -222 || c2 != want) mc_viol("c05/error-not-queued-in-last-free-place", "1 error queued before (capacity 2), message [%s]: queue holds %d, %d; expected -222, %d", mc_es(fq[k].msg), c1, c2, want);
+            }
             if (strcmp(got, expbuf) || (r ? 1 : 0) != fq[k].res)
                 mc_viol("c05/error-accounting-depends-on-queue-fill", "%d errors queued before (capacity 2), message [%s]: trace [%s] result %d, expected [%s] result %d", fill, mc_es(fq[k].msg), mc_es(TR), (int) r, fq[k].exp, fq[k].res);
             else n_wellformed++;
